@@ -155,6 +155,7 @@ func genSeqOps(g *Rand, fl seqFlavour, nslots, n int, thorough bool) []SOp {
 		ops = append(ops, genJoin(g, s, "r1", fl))
 	}
 	uniq := 0
+	shURI, shPol := g.Pick("p.a", "p.b"), g.Pick("roundrobin", "first", "last", "random")
 	for len(ops) < n {
 		op := SOp{Slot: g.Intn(nslots)}
 		var w []int
@@ -261,6 +262,12 @@ func genSeqOps(g *Rand, fl seqFlavour, nslots, n int, thorough bool) []SOp {
 				// feature sets end up on one registration
 				op.URI = g.Pick("p.a", "p.b")
 				op.Opts = wamp.Dict{"invoke": g.Pick("roundrobin", "first", "last", "random")}
+				if g.Chance(3, 4) {
+					// one procedure and policy per script collects most of them:
+					// registrations with three and more callees
+					op.URI = shURI
+					op.Opts = wamp.Dict{"invoke": shPol}
+				}
 				if g.Chance(1, 2) && fl == seqC13 {
 					op.Opts["forward_timeout"] = true
 				}
